@@ -180,3 +180,12 @@ CHECKS["C18"] = {
     "note": _FRAG_NOTE,
 }
 NOT_APPLICABLE.pop("C18", None)
+CHECKS["C07"] = {
+    "engine": "E5 rules (T-NUMERIC, T-STRTOKEN, T-FLOW.string) + E3 x E4 (x objabs) fragments with literal positions",
+    "category": "model_checking",
+    "technique": "control-dependence check of the numeric-default conversion; abstract evaluation of the literal-bearing fragments (defaults, comments, enum values, string-valued options) with exemplars containing blanks / ` = ` / ` . `; per-alternative lint of string methods applied to string-literal positions",
+    "text": "Narrow claim: purely numeric defaults (incl. 0 and leading zeros) are reported as the integer of the same value because the conversion is guarded by exactly isnumeric(); in every literal position of the explored fragments a quoted literal - taken as one word - is reported with exactly its characters by lexer, actions and output layer; no action splits / replaces / re-cases a production position that can hold a string literal (one known finding). What the line pre-processor does to the characters inside literals is NOT decided.",
+    "design_ref": "DESIGN.md section 4 C07, section 6",
+    "note": "Declined (run-time string rewriting by regexes): pre_process_data spacing, quote-parity handling, comment markers and semicolons inside literals, non-ASCII letters. The property text records such literals come back altered.",
+}
+NOT_APPLICABLE.pop("C07", None)
